@@ -68,10 +68,15 @@ RHS = {
           "Constant": ["const", 1.5, "float"]},
     "V": {**SCALAR_RHS, "VectorVariable": _y, "VectorExpression": ["vbin", "+", _y, ["raw", 1.0, "float"]],
           "arr": ["arr", [0.5, -1.0, 2.0]], "arr-int": ["arr", [1, 0, 2]], "list": ["list", [0.5, -1.0, 2.0]],
+          "arr-strided-view": ["arr", [0.5, -1.0, 2.0], "strided"], "arr-reversed-view": ["arr", [0.5, -1.0, 2.0], "fliplr"],
+          "arr-uint8": ["arr", [1, 0, 2], "uint8"], "arr-int8": ["arr", [1, -3, 2], "int8"], "tuple": ["tuple", [0.5, -1.0, 2.0]],
           "MISMATCH:VectorVariable": _z, "MISMATCH:arr": ["arr", [1.0, 2.0]], "MISMATCH:list": ["list", [1.0, 2.0, 3.0, 4.0]],
           "MISMATCH:VectorExpression": ["vbin", "*", _z, ["raw", 2.0, "float"]], "MISMATCH:arr2": ["arr2", [[1.0, 2.0, 3.0]]]},
     "M": {**SCALAR_RHS, "MatrixVariable": _Bm, "MatrixExpression": ["mbin", "-", _Bm, ["raw", 1.0, "float"]],
-          "arr2": ["arr2", [[0.5, -1.0], [2.0, 0.0]]], "MISMATCH:MatrixVariable": _C,
+          "arr2": ["arr2", [[0.5, -1.0], [2.0, 0.0]]], "arr2-fortran-order": ["arr2", [[0.5, -1.0], [2.0, 0.0]], "F"],
+          "arr2-transposed-view": ["arr2", [[0.5, -1.0], [2.0, 0.0]], "T"], "arr2-flipud-view": ["arr2", [[0.5, -1.0], [2.0, 0.0]], "flipud"],
+          "arr2-strided-view": ["arr2", [[0.5, -1.0], [2.0, 0.0]], "strided"], "arr2-int8": ["arr2", [[1, -1], [2, 0]], "int8"],
+          "list2": ["list2", [[0.5, -1.0], [2.0, 0.0]]], "MISMATCH:MatrixVariable": _C,
           "MISMATCH:arr2": ["arr2", [[1.0, 2.0, 3.0], [4.0, 5.0, 6.0]]], "MISMATCH:MatrixExpression": ["mbin", "*", _C, ["raw", 2.0, "float"]]},
 }
 SENSES = ["<=", ">=", "=="]
